@@ -17,7 +17,7 @@ TRUSTED = []
 
 def gen_ops(tier, rng):
     ops = []
-    shapes = [(2, 1), (3, 2)] if tier == "quick" else [(2, 1), (3, 2), (5, 3)]
+    shapes = [(2, 1), (3, 2), (1, 2)] if tier == "quick" else [(2, 1), (3, 2), (5, 3), (1, 2)]
     for (d, p) in shapes:
         B = 64
         L = 3 * B + 5
@@ -28,13 +28,16 @@ def gen_ops(tier, rng):
             for i in range(d):
                 for k in offs:
                     ops.append((f"sencode {d} {p} {B} {lst([L]*d)} r:{i}:{k} {seed} {conc} 1", {"cat": "enc-readerr", "f": 1}))
+                    if k % 3 == 0 or k >= L - 2 or k % B == 0:
+                        # the reader's error merely wraps io.EOF / io.ErrUnexpectedEOF: still a failure of that stream
+                        ops.append((f"sencode {d} {p} {B} {lst([L]*d)} r{rng.choice('wu')}:{i}:{k} {seed} {conc} 1", {"cat": "enc-readerr-wrapped", "f": 1}))
                     # early EOF / surplus: stream i has k bytes
                     lens = [L] * d; lens[i] = k
-                    ops.append((f"sencode {d} {p} {B} {lst(lens)} - {seed} {conc} 1", {"cat": "enc-unequal", "f": 1 if k != L else 0}))
+                    ops.append((f"sencode {d} {p} {B} {lst(lens)} - {seed} {conc} 1", {"cat": "enc-unequal", "f": 1 if k != L and d >= 2 else 0}))
             for i in range(d):
                 for extra in [1, B - 5, B, B + 1]:
                     lens = [L] * d; lens[i] = L + extra
-                    ops.append((f"sencode {d} {p} {B} {lst(lens)} - {seed} {conc} 1", {"cat": "enc-surplus", "f": 1}))
+                    ops.append((f"sencode {d} {p} {B} {lst(lens)} - {seed} {conc} 1", {"cat": "enc-surplus", "f": 1 if d >= 2 else 0}))
             for j in range(p):
                 for k in offs:
                     for kind in ["", ":short"]:
@@ -42,6 +45,8 @@ def gen_ops(tier, rng):
             for i in range(n):
                 for k in offs:
                     ops.append((f"sverify {d} {p} {B} {L} - - r:{i}:{k} {seed} {conc} 1", {"cat": "ver-readerr", "f": 1}))
+                    if k % 3 == 0 or k >= L - 2 or k % B == 0:
+                        ops.append((f"sverify {d} {p} {B} {L} - - r{rng.choice('wu')}:{i}:{k} {seed} {conc} 1", {"cat": "ver-readerr-wrapped", "f": 1}))
                     ops.append((f"sverify {d} {p} {B} {L} {i}:{k} - - {seed} {conc} 1", {"cat": "ver-truncated", "f": 1 if k != L else 0}))
                 for extra in [1, B, B + 1]:
                     ops.append((f"sverify {d} {p} {B} {L} {i}:{L+extra} - - {seed} {conc} 1", {"cat": "ver-surplus", "f": 1}))
@@ -51,7 +56,8 @@ def gen_ops(tier, rng):
                 for i in valid:
                     for k in offs[::2] if tier == "quick" else offs:
                         ops.append((f"srecon {d} {p} {B} {L} {lst(valid)} {lst(missing)} - r:{i}:{k} {seed} {conc} 1", {"cat": "rec-readerr", "f": 1}))
-                        ops.append((f"srecon {d} {p} {B} {L} {lst(valid)} {lst(missing)} {i}:{k} - {seed} {conc} 1", {"cat": "rec-truncated", "f": 1 if k != L else 0}))
+                        ops.append((f"srecon {d} {p} {B} {L} {lst(valid)} {lst(missing)} - r{rng.choice('wu')}:{i}:{k} {seed} {conc} 1", {"cat": "rec-readerr-wrapped", "f": 1}))
+                        ops.append((f"srecon {d} {p} {B} {L} {lst(valid)} {lst(missing)} {i}:{k} - {seed} {conc} 1", {"cat": "rec-truncated", "f": 1 if k != L and len(valid) >= 2 else 0}))
                 for j in missing:
                     for k in offs[::2] if tier == "quick" else offs:
                         for kind in ["", ":short"]:
